@@ -36,13 +36,16 @@ def main() -> int:
     with open(os.path.join(HERE, "manifest_texts.json"),
               encoding="utf-8") as f:
         texts = json.load(f)
+    with open(os.path.join(HERE, "registered.json"), encoding="utf-8") as f:
+        registered = set(json.load(f))  # checks accepted by the lead
     checks = []
     na = []
     for pid in IDS:
         t = dict(texts.get(pid, {}))
         t.update(read_meta(pid))
         have = os.path.exists(
-            os.path.join(VERIF, "vf", "props", f"{pid.lower()}.py"))
+            os.path.join(VERIF, "vf", "props", f"{pid.lower()}.py")) \
+            and pid in registered
         if have and not t.get("not_applicable"):
             checks.append({
                 "property_id": pid,
